@@ -155,8 +155,14 @@ def run_case(case):
         bad = np.where((got.astype(bool) != want) & clear)[0]
         rep.ok("decided-points", int(clear.sum()) - len(bad))
         rep.nontrivial += int(clear.sum())
+        model_hit = False
+        if label == "Ellipse" and len(bad):
+            # bug model of the recorded finding: one-sided bounding-box test  dx <= a and dy <= b
+            dxy = W[:, :2] - np.array(c[:2], float)
+            model = (dxy[:, 0] / a <= 1) & (dxy[:, 1] / b <= 1)
+            model_hit = bool(np.array_equal(got.astype(bool), model))
         for i in bad[:2]:
-            rep.violation("membership", label, "is_inside", "wrong-inside" if got[i] else "wrong-outside", case, "%s.is_inside(%s) = %s but the point is exactly %s; query #%d/%d (%d wrong in this case)" % (label, W[i].tolist(), bool(got[i]), "inside" if want[i] else "outside", i, len(W), len(bad)), expected=bool(want[i]), got=bool(got[i]))
+            rep.violation("membership", label, "is_inside", "one-sided-bounding-box" if model_hit else ("wrong-inside" if got[i] else "wrong-outside"), case, "%s.is_inside(%s) = %s but the point is exactly %s; query #%d/%d (%d wrong in this case)" % (label, W[i].tolist(), bool(got[i]), "inside" if want[i] else "outside", i, len(W), len(bad)), expected=bool(want[i]), got=bool(got[i]))
         ci = np.where(clear)[0]
         if len(ci) == 0:
             continue
